@@ -907,6 +907,10 @@ class Engine:
                         nxt.extend(self.exec_block(node.body, s_, exits))
                     states = nxt
                 return states
+        if isinstance(node.iter, ast.Name) and isinstance(st.env.get(node.iter.id), (Num, BoolV, NoneV)):
+            # `for x in <number>`: not iterable - TypeError before any iteration (no cut point is consumed)
+            self.raise_exc(st, "TypeError", z3.BoolVal(True), node.lineno, exits)
+            return []
         k, lc = self.loop_contract(node)
         it = node.iter
         cname = "it%d" % k
